@@ -145,6 +145,14 @@ class Layouts:
             if e[1] in args:
                 return args[e[1]]
             raise Unknown("argument %d has no value" % e[1])
+        if k == "constx" and len(e) > 2:
+            # an associated constant of a generic impl (`Self::PREFIX_SIZE`): its initialiser, evaluated for these shapes
+            cb = next((c for c in self.F.raw.get("const_bodies", []) if c.get("key") == e[2]), None)
+            if cb is None:
+                raise Unknown("constant " + str(e[1]))
+            from . import cfg as _cfg
+
+            return self.eval(symx.local_expr(self.F, _cfg.Body(cb), 0, 0), shapes, {}, tail_len)
         if k == "addr":
             return self.eval(e[1], shapes, args, tail_len)
         if k == "proj":
@@ -256,6 +264,10 @@ class Layouts:
                 x = self.eval(a[0], shapes, args, tail_len)
                 y = self.eval(a[1], shapes, args, tail_len)
                 return max(x, y) if name == "max" else min(x, y)
+            if name == "saturating_mul" and len(a) == 2:
+                x = self.eval(a[0], shapes, args, tail_len)
+                y = self.eval(a[1], shapes, args, tail_len)
+                return min(x * y, (1 << 64) - 1)
             if name in ("wrapping_add", "wrapping_sub", "wrapping_mul", "saturating_sub", "saturating_add", "next_multiple_of") and len(a) == 2:
                 x = self.eval(a[0], shapes, args, tail_len)
                 y = self.eval(a[1], shapes, args, tail_len)
